@@ -284,6 +284,20 @@ fn injection_cases() -> Vec<Case> {
     st("make q get 0 jasi (true) start comot end", Expect::Valid);
     st("do rf() start return end rf()", Expect::Valid);
     st("make sh get 1 start make sh get 2 end shout(sh)", Expect::Valid);
+    // operands typed only at run time (parameters, elements, pop() results) under unary
+    // operators and `add`, used further in a typed position
+    st("do dy1(p) start return minus p add 1 end shout(dy1(2))", Expect::Valid);
+    st("do dy2(p) start if to say (not p and true) start shout(1) end end dy2(false)", Expect::Valid);
+    st("do dy3(a9, b9) start make c9 get a9 add b9 return c9 minus 1 end shout(dy3(2, 3))", Expect::Valid);
+    st("do dy4(p) start make c9 get p add 1 return c9.len() end shout(dy4(\"a\"))", Expect::Valid);
+    st("do dy5(p) start return (p add p).len() end shout(dy5(\"a\"))", Expect::Valid);
+    st("make ar9 get [2, true] shout(minus ar9[0] add 1) shout(not ar9[1] or true)", Expect::Valid);
+    st("make ar9 get [2] shout(minus ar9.pop() times 3)", Expect::Valid);
+    // a function's signature is inferred from its own parameters and locals, not from
+    // same-named variables of enclosing scopes
+    st("make ox9 get 1 start do fo9(ox9) start return ox9 end make so9 get fo9(\"abc\") shout(so9.len()) end", Expect::Valid);
+    st("make oy9 get 1 start do go9() start make oy9 get \"st\" return oy9 end shout(go9().len()) end shout(oy9)", Expect::Valid);
+    st("make oz9 get \"s\" start do ho9(oz9) start return oz9 end shout(ho9(3) minus 1) end shout(oz9)", Expect::Valid);
 
     // expression snippets (embedded three ways)
     let mut exprs: Vec<(String, Expect)> = Vec::new();
